@@ -56,6 +56,11 @@ DecidedView(cfg, pass) ==
     THEN (\E i \in IdxOf(cfg) : SuccInView(pass, i)) \/ \A i \in IdxOf(cfg) : ExhaustedView(cfg, pass, i)
     ELSE (\A i \in IdxOf(cfg) : SuccInView(pass, i)) \/ \E i \in IdxOf(cfg) : ExhaustedView(cfg, pass, i)
 
+\* the same, but only through tasks the cached status records (their Pods refreshed from the Pod cache): tasks that exist in the
+\* Pod cache without being recorded (created by a pass whose status write was lost) are adopted only on the create path
+RecView(pass) == [pass EXCEPT !.p = SelectSeq(pass.p, LAMBDA q : \E r \in Range(pass.j.refs) : r.name = q.name)]
+DecidedViewRec(cfg, pass) == DecidedView(cfg, RecView(pass))
+
 \* ---------- C08 ----------
 C08_OneLive(cfg, pods) == \A i \in IdxOf(cfg) : Cardinality({p \in Mine(pods) : p.idx = i /\ Alive(p)}) <= 1
 NewPods(pods, podsN) == {p \in Mine(podsN) : p.name \notin Names(pods)}
@@ -78,6 +83,8 @@ C08_GatesStep(cfg, pods, podsN, pass, succRec) ==
         /\ pass.j.ex /\ pass.j.started /\ pass.j.kill = 0 /\ ~pass.j.adm /\ ~pass.j.del
         /\ ~SucceededRec(pass.j, p.idx)
         /\ ~DecidedRec(cfg, pass.j)
+        \* nor when the Job is complete in what the pass listed (cached status merged with its Pod cache), even if no status recorded it yet
+        /\ ~DecidedView(cfg, pass)
         \* nor for an index one of whose recorded tasks the pass could see as succeeded in its Pod cache
         /\ ~\E q \in Mine(pass.p) : q.idx = p.idx /\ q.phase = "Succeeded" /\ ~q.oom /\ \E r \in Range(pass.j.refs) : r.name = q.name
 
@@ -93,6 +100,8 @@ C09_NotLost(job, pods) ==
 C09_NoForeignAdopt(job, pods) ==
     job.ex => \A r \in Range(job.refs) : \A p \in Range(pods) : p.name = r.name => p.mine
 C09_Listed(job, pods) == (job.ex /\ ~job.del) => \A p \in Mine(pods) : \E r \in Range(job.refs) : r.name = p.name
+\* ... and only a foreign object does: the Job's own task, created but not yet visible in the Pod cache, is never a reason
+C09_AdmOnlyForeignStep(job, jobN, admTruthN) == (jobN.ex /\ jobN.adm /\ ~job.adm) => admTruthN
 \* a foreign object occupying a needed task name ends the Job in AdmissionError (instead of waiting forever)
 C09_ForeignEnds(job, pods) ==
     ((\E p \in Range(pods) : ~p.mine) /\ job.ex /\ job.started /\ ~job.del /\ job.kill = 0) => job.phase = "AdmissionError"
@@ -149,7 +158,7 @@ C12_DeleteJustifiedStep(cfg, dels, pods, podsN, pass, nowN, everN, succN) ==
         \* pending timeout, judged on what the pass could see of the task of that name: the cached Pod (its creation time,
         \* never seen running), or - for a Pod the pass created itself - the Pod's own creation time
         \/ (cfg.pt > 0 /\ \E q \in PodNamed(pass.p, p.name) : ~q.ran /\ nowN >= q.cr + cfg.pt)
-        \/ (cfg.pt > 0 /\ PodNamed(pass.p, p.name) = {} /\ nowN >= p.cr + cfg.pt)
+        \/ (cfg.pt > 0 /\ (\A q \in PodNamed(pass.p, p.name) : q.uid # p.uid) /\ nowN >= p.cr + cfg.pt)   \* (also when the cache held an earlier object of that name)
         \/ pass.j.del
         \/ DecidedTruth(cfg, podsN, everN, succN)
         \/ DecidedView(cfg, pass)
